@@ -438,6 +438,19 @@ def try_continue_block(body, call_site):
     """For `x = call(..)?` : the block entered on the Ok (Continue) edge of the `?`, else None."""
     for c in body.calls_to("Try::branch"):
         a = peel(c.args[0])
+        if isinstance(a, tuple) and len(a) == 2 and a[0] == "var":
+            # the result place of an expanded closure / helper: this call's result on one path, error returns on the others
+            alts = [peel(x) for x in body.var_alts(a[1])]
+            mine = [x for x in alts if isinstance(x, tuple) and x and x[0] == "call" and
+                    (x[3] == call_site.bb or (lambda y: isinstance(y, tuple) and y and y[0] == "call" and y[3] == call_site.bb)(peel(x, transparent=["Result::map_err"])))]
+            rest = [x for x in alts if x not in mine]
+            if len(mine) == 1 and all(is_call(peel(x, transparent=[]), "FromResidual::from_residual") or (x[0] == "agg" and x[2].endswith("Result::Err")) for x in rest):
+                a = mine[0]
+        if isinstance(a, tuple) and a[0] == "call" and a[3] != call_site.bb:
+            # `call(..).map_err(f)?`: the error is converted, not dropped
+            a2 = peel(a, transparent=["Result::map_err"])
+            if isinstance(a2, tuple) and a2 and a2[0] == "call" and a2[3] == call_site.bb:
+                a = a2
         if isinstance(a, tuple) and a[0] == "call" and a[3] == call_site.bb:
             si = body.switch_info(c.target) if c.target is not None else None
             if si:
